@@ -174,7 +174,11 @@ def run_part(part: Part) -> PartResult:
             if m.state in (MessageType.POST_FAIL, MessageType.EXEC_ERR, MessageType.POST_ERR):
                 worst = m
                 break
-        if worst is not None:
+        if worst is not None and "StubMissing" in (worst.message or ""):
+            res.status = "error"
+            res.state = worst.state.name
+            res.message = "the code under analysis uses an RDKit API the stub world does not model (harness limit, not a violation): " + worst.message[:300]
+        elif worst is not None:
             res.status = "cex"
             res.state = worst.state.name
             res.message = worst.message
@@ -283,7 +287,11 @@ def replay_part(part: Part, cex: Dict[str, Any]) -> Dict[str, Any]:
                 return {"reproduced": False, "outcome": "precondition error: %r" % e}
     try:
         out = fn(**kwargs)
-    except Exception as e:
+    except BaseException as e:  # noqa
+        if type(e).__name__ == "StubMissing":
+            return {"reproduced": False, "outcome": "stub world does not model this API: %s" % e}
+        if not isinstance(e, Exception):
+            raise
         return {
             "reproduced": True,
             "outcome": "raised %s: %s" % (type(e).__name__, e),
